@@ -41,6 +41,54 @@ let res_str = function
   | RVal (Some v) -> string_of_n v
   | RItems l -> String.concat "" (List.map (fun (k, v) -> " " ^ string_of_n k ^ "=" ^ string_of_n v) l)
 
+(* ---- T-sched: the atomic-step model under the schedule of the case ---- *)
+let rec parse_cops = function
+  | [] -> []
+  | "i" :: k :: v :: r -> CIns (n_of_string k, n_of_string v) :: parse_cops r
+  | "f" :: k :: r -> CFind (n_of_string k) :: parse_cops r
+  | "r" :: k :: r -> CRem (n_of_string k) :: parse_cops r
+  | _ -> failwith "bad thread op"
+
+let dump_chain c =
+  let b = Buffer.create 256 in
+  Buffer.add_char b '{';
+  List.iteri (fun i t -> if i > 0 then Buffer.add_char b ' '; dump_table b t) (chain c);
+  Buffer.add_char b '}'; Buffer.contents b
+
+(* same loop as cos_run: the schedule, then round-robin until every thread has finished *)
+let run_sched c0 nt sched maxrounds =
+  let c = ref c0 in
+  let steps = Array.make nt 0 in
+  let fin t = match List.nth_opt !c.g_thr t with Some th -> th_finished th | None -> true in
+  let st t = if t >= 0 && t < nt && not (fin t) then begin
+      steps.(t) <- steps.(t) + 1; c := cstep !c (nat_of_int t) end in
+  List.iter st sched;
+  let k = ref 0 and dl = ref false in
+  while not (all_done !c) && not !dl do
+    for t = 0 to nt - 1 do st t done;
+    incr k; if !k > maxrounds then dl := true
+  done;
+  (!c, steps, !dl)
+
+let cop_str o r inv resp =
+  let (n, k) = match o with CIns (k, _) -> ("i", k) | CFind k -> ("f", k) | CRem k -> ("r", k) in
+  let rs = match o, r with CIns _, _ -> "." | _, None -> "-" | _, Some v -> string_of_n v in
+  Printf.sprintf " %s:%s:%s@%d-%d" n (string_of_n k) rs (int_of_nat inv) (int_of_nat resp)
+let cop_pending o =
+  let (n, k) = match o with CIns (k, _) -> ("i", k) | CFind k -> ("f", k) | CRem k -> ("r", k) in
+  Printf.sprintf " %s:%s:?@-1--1" n (string_of_n k)
+
+(* the sequential model and the atomic-step model run by one thread must agree (i / f / r only) *)
+let cross_check bits hint maxb ops =
+  if List.for_all (fun (n, _) -> n = "i" || n = "f" || n = "r") ops then begin
+    let cops = List.map (fun (_, o) -> match o with
+        | OIns (k, v) -> CIns (k, v) | OFind k -> CFind k | ORem k -> CRem k | _ -> assert false) ops in
+    let c0 = cinit (nat_of_int bits) (z_of_int hint) (z_of_int maxb) [cops] in
+    let (c, _, dl) = run_sched c0 1 [] 100000 in
+    let (_, h) = run_ops (ht_init (nat_of_int bits) (z_of_int hint) (z_of_int maxb)) (List.map snd ops) in
+    if dl || dump_chain c <> dump h then " <the two models disagree>" else ""
+  end else ""
+
 let () =
   iter_cases Sys.argv.(1) (fun line ->
     match split_on '|' line with
@@ -57,6 +105,28 @@ let () =
             let (r, h') = step_op !h o in
             h := h';
             let rs = res_str r in
-            name ^ ":" ^ (if name = "a" then rs else rs) ^ " " ^ dump h') ops)
+            name ^ ":" ^ rs ^ " " ^ dump h') ops) ^ cross_check bits hint maxb ops
+      end else if mode = "sched" then begin
+        match rest with
+        | pre :: thr :: sc :: _ ->
+          let pre_ops = parse_cops (words pre) in
+          let tops = List.map (fun s -> parse_cops (words s)) (split_on '/' thr) in
+          let nt = List.length tops in
+          let c0 = cinit (nat_of_int bits) (z_of_int hint) (z_of_int maxb) [pre_ops] in
+          let (c1, _, _) = run_sched c0 1 [] 100000 in
+          let c2 = restart c1 tops in
+          let (c, steps, dl) = run_sched c2 nt (ints sc) 20000 in
+          let b = Buffer.create 256 in
+          List.iteri (fun t th ->
+              Buffer.add_string b (Printf.sprintf "t%d:" t);
+              List.iter (fun (((o, r), inv), resp) -> Buffer.add_string b (cop_str o r inv resp)) (List.rev th.th_done);
+              List.iter (fun o -> Buffer.add_string b (cop_pending o)) th.th_ops;
+              Buffer.add_string b " | ") c.g_thr;
+          Buffer.add_string b (dump_chain c);
+          Buffer.add_string b (Printf.sprintf " | rw=%d,%d,%d,%d | steps:" (int_of_z c.g_rw.rin) (int_of_z c.g_rw.rout)
+                                 (int_of_z c.g_rw.win) (int_of_z c.g_rw.wout));
+          Array.iter (fun s -> Buffer.add_string b (" " ^ string_of_int s)) steps;
+          Buffer.contents b ^ (if dl then " <deadlock>" else "")
+        | _ -> "<bad case>"
       end else "<bad case>"
     | _ -> "<bad case>")
